@@ -93,6 +93,8 @@ def run_check(prop, tier, seed, workers=None, replay=None):
     ctx = Ctx(tier, seed, workers)
     units = list(mod.plan(ctx))
     random.Random(seed).shuffle(units)       # order only; coverage is identical
+    if hasattr(mod, 'unit_cost'):            # longest units first (stable), so the pool drains evenly
+        units.sort(key=lambda u: -mod.unit_cost(u))
     total = Tally(prop)
     errors = []
     if workers <= 1 or len(units) <= 1:
